@@ -7,7 +7,7 @@ change passes the existing tests, and that the demo fails with it and passes wit
 related checks are run with VERIF_REPO pointing at the worktree."""
 import json, os, shutil, subprocess, sys, tempfile, time
 VERIF = "/verif"
-RELATED = {"C01": ["C12", "C14"], "C02": ["C01"], "C04": ["C01", "C11"], "C05": [], "C08": ["C34"], "C09": ["C01", "C14"], "C10": ["C11"],
+RELATED = {"C01": ["C12", "C14", "C04", "C11"], "C02": ["C01"], "C04": ["C01", "C11"], "C05": [], "C08": ["C34"], "C09": ["C01", "C14"], "C10": ["C11"],
            "C11": ["C10", "C04"], "C12": ["C01", "C06"], "C13": [], "C14": ["C34"], "C19": ["C18", "C40"], "C20": ["C18"], "C21": ["C17"],
            "C22": ["C26"], "C23": ["C26", "C18"], "C24": ["C25"], "C25": ["C30", "C28"], "C26": ["C23"], "C27": ["C28"], "C28": ["C27", "C25"],
            "C29": ["C31"], "C30": ["C25"], "C31": ["C30"], "C38": [], "C03": [], "C06": ["C01", "C12"], "C07": ["C13"], "C15": ["C35"], "C16": [],
@@ -30,9 +30,24 @@ for pid in ids:
         if os.path.exists(demo):
             shutil.copy(demo, os.path.join(out, "demo.py"))
         wt = tempfile.mkdtemp(prefix="evalseed-"); os.rmdir(wt)
-        subprocess.run(["git", "-C", "/repo", "worktree", "add", "-q", wt, "HEAD"], check=True)
+        for attempt in range(20):
+            if subprocess.run(["git", "-C", "/repo", "worktree", "add", "-q", wt, "HEAD"]).returncode == 0:
+                break
+            time.sleep(1 + attempt % 5)
+        else:
+            raise SystemExit("cannot create worktree")
         meta = {"property": pid, "patch": "patch.diff", "demo": "demo.py", "repo_head": subprocess.check_output(["git", "-C", "/repo", "rev-parse", "--short", "HEAD"], text=True).strip(),
                 "evaluated_at": time.strftime("%Y-%m-%dT%H:%M:%SZ", time.gmtime()), "ran": [], "checks": {}}
+        if os.path.exists(demo):
+            import ast
+            try:
+                doc = ast.get_docstring(ast.parse(open(demo).read())) or ""
+            except SyntaxError:
+                doc = ""
+            meta["what_it_needs_to_manifest"] = " ".join(doc.split())[:900]
+        notes = json.load(open(os.path.join(VERIF, "seeded", "NOTES.json"))) if os.path.exists(os.path.join(VERIF, "seeded", "NOTES.json")) else {}
+        if f"{pid}-{n}" in notes:
+            meta["note"] = notes[f"{pid}-{n}"]
         try:
             r = subprocess.run(["git", "-C", wt, "apply", patch], capture_output=True, text=True)
             meta["applies_to_head"] = r.returncode == 0
